@@ -733,6 +733,9 @@ impl SixtyCycleDay {
       if !solar_day.is_before(spring_solar_day) {
         lunar_year = lunar_year.next(1);
       }
+    } else {
+      // 农历新年早于公历新年时（如公元15年12月底已进入农历16年），当年立春之后仍属公历年对应的干支年
+      lunar_year = lunar_year.next(-1);
     }
     let term: SolarTerm = solar_day.get_term();
     let mut index: isize = term.get_index() as isize - 3;
@@ -912,6 +915,9 @@ impl SixtyCycleHour {
       if !solar_time.is_before(spring_solar_time) {
         lunar_year = lunar_year.next(1);
       }
+    } else {
+      // 农历新年早于公历新年时（如公元15年12月底已进入农历16年），当年立春之后仍属公历年对应的干支年
+      lunar_year = lunar_year.next(-1);
     }
     let term: SolarTerm = solar_time.get_term();
     let mut index: isize = term.get_index() as isize - 3;
